@@ -92,6 +92,12 @@ def run(chk):
     chk.call(r3_class_wrappers, chk, ens)
     chk.call(r7_cdxml_siblings, chk)
     chk.call(r1_lists_where_promised, chk)
+    chk.call(r3_path_and_stream_agree, chk)
+    # the cdxml arms wrap the parsed fragment in `otype(fragment, name=...)`: the copy must keep the fragment's charge and multiplicity
+    # (what CDXMLFile[...] itself returns) - the override-default clause of C06.R7
+    from . import c06
+
+    chk.borrow("C09.R3", c06.r7b_override_defaults, chk)
 
 
 def r1_lists_where_promised(chk):
@@ -582,3 +588,34 @@ def r3_class_wrappers(chk, ens):
         chk.decide(v is not None and "name" in names_in(v), "C09.R3", f"{init.key}:{branch}:name", init.where(c), f"name={norm(v) if v is not None else None}",
                    f"the {branch} branch of ConformerEnsemble.__init__ passes name={norm(v) if v is not None else None} and ignores the `name` argument: "
                    "ConformerEnsemble.load_mol2(f, name='zzz').name is the first conformer's name")
+
+
+def r3_path_and_stream_agree(chk):
+    """The class-level loaders take a path or an open stream; ml.load opens the file itself and hands over the stream.  Both routes must
+    give the same object: the arm that recognises a path may open it and nothing else - an arm that also fills in a parameter
+    (`name = name or Path(input).stem`) makes `Cls.load_xyz(path)` and `ml.load(path, otype=...)` disagree."""
+    from .common_fwd import wrappers
+
+    prog = chk.prog
+    n = 0
+    for f in wrappers(prog):
+        params = f.params()
+        for t in walk_no_nested(f.node):
+            if not (isinstance(t, ast.If) and "isinstance(" in norm(t.test) and "Path" in norm(t.test)):
+                continue
+            n += 1
+            chk.analysed(f)
+            bad = None
+            for arm in (t.body, t.orelse):
+                for s_ in arm:
+                    for x in ast.walk(s_):
+                        if isinstance(x, (ast.Assign, ast.AugAssign, ast.AnnAssign)):
+                            tg = x.targets if isinstance(x, ast.Assign) else [x.target]
+                            for g in tg:
+                                for nm in ast.walk(g):
+                                    if isinstance(nm, ast.Name) and nm.id in params[2:]:
+                                        bad = bad or x
+            chk.decide(bad is None, "C09.R3", f"{f.key}:path-arm-only-opens", f.where(t), "the path / stream arms bind the stream only",
+                       f"`{short(bad, 50) if bad is not None else ''}` in the arm that tells a path from a stream changes a parameter: {f.qualname}(path) and ml.load(path), which hands over "
+                       "the stream it opened, no longer return the same object")
+    chk.require(n >= 2, f"only {n} path / stream arms found in the class-level loaders")
